@@ -1,7 +1,7 @@
 //! C19 — encoding never expands audio beyond verbatim size plus a fixed frame overhead.
 
 use super::c01::{EncCase, Roundtrip, enc_case_strategy, label_case, strip_digits};
-use crate::codec::{self, FRONTS, Front};
+use crate::codec::{self, EncErr, FRONTS, Front};
 use crate::engine::{Ctx, Engine, Fail, Outcome, Tier};
 use crate::opts::{self, EncOpts};
 use crate::pcm::{self, ChanRecipe, Kind, Recipe};
@@ -28,6 +28,10 @@ impl Engine for Expansion {
         let bytes = match guarded(|| codec::encode_vec(&pcm, &c.opts, c.front, &c.chunks)) {
             Err(p) => {
                 out.fails.push(Fail::panic("encode-panic", &p));
+                return out;
+            }
+            Ok(Err(EncErr::Options(_))) => {
+                out.label("options-refused");
                 return out;
             }
             Ok(Err(e)) => {
